@@ -1,4 +1,5 @@
 #!/bin/bash
+ROOT=$(cd "$(dirname "$0")/.." && pwd)
 # try_mutant.sh <patch> <prop> [tier]
 # Applies the patch to a scratch worktree of /repo (never to /repo itself), checks that it builds and
 # passes the existing tests, runs the check against it with all outputs in a scratch dir, removes both.
@@ -15,7 +16,7 @@ if [ -z "${SKIP_TESTS:-}" ]; then
   ( cd "$wt" && go test -vet=off -count=1 ./... ) >/dev/null 2>&1 || { echo "$name: MUTANT-FAILS-EXISTING-TESTS"; exit 7; }
 fi
 mkdir -p "$out"
-res=$(VERIF_REPO="$wt" VERIF_OUT="$out" /verif/check.sh "$prop" "$tier" 2>&1); rc=$?
+res=$(VERIF_REPO="$wt" VERIF_OUT="$out" "$ROOT"/check.sh "$prop" "$tier" 2>&1); rc=$?
 line=$(echo "$res" | grep -E "^(violation class|HARNESS-TROUBLE|OK )" | head -1)
 runs=$(echo "$res" | grep -E "^phase" | tr '\n' ' ')
 echo "$name [$prop]: rc=$rc $line | $runs"
